@@ -289,11 +289,9 @@ func copyDBIntoSQLite(source, destination *sql.DB,
 	}
 	defer tx.Rollback()
 	deleteProfilesQueryStr := fmt.Sprintf("DELETE from user_profile ")
-	if rows, err := destination.Query(deleteProfilesQueryStr); err != nil {
+	if _, err := tx.Exec(deleteProfilesQueryStr); err != nil {
 		logger.Printf("err='%s'", err)
 		return err
-	} else {
-		rows.Close()
 	}
 	stmtText := saveUserProfileStmt[destinationType]
 	stmt, err := tx.Prepare(stmtText)
